@@ -291,7 +291,8 @@ class Elf(BinFormat):
         if (section.sh_size % l) != 0:
             raise ElfError("symbol table size mismatch")
         else:
-            n = section.sh_size // l
+            # (only the entries that the file really holds)
+            n = len(data) // l
         symtab = []
         offset = 0
         for i in range(n):
@@ -318,7 +319,8 @@ class Elf(BinFormat):
         if (section.sh_size % l) != 0:
             raise ElfError("relocation table size mismatch")
         else:
-            n = section.sh_size // l
+            # (only the entries that the file really holds)
+            n = len(data) // l
         reltab = []
         x64 = self.Ehdr.e_ident.EI_CLASS == ELFCLASS64
         lbe = ">" if (self.Ehdr.e_ident.EI_DATA == ELFDATA2MSB) else None
@@ -344,7 +346,8 @@ class Elf(BinFormat):
         if (section.sh_size % l) != 0:
             raise ElfError("dynamic linking size mismatch")
         else:
-            n = section.sh_size // l
+            # (only the entries that the file really holds)
+            n = len(data) // l
         dyntab = []
         x64 = self.Ehdr.e_ident.EI_CLASS == ELFCLASS64
         lbe = ">" if (self.Ehdr.e_ident.EI_DATA == ELFDATA2MSB) else None
